@@ -5,13 +5,13 @@ A=$1; I=$2; ID=$3; shift 3; XF="$@"
 W=/tmp/confirm/$ID; L=/tmp/confirm/$ID.log
 rm -rf $W; git -C /repo worktree prune; git -C /repo worktree add --detach -q $W HEAD || exit 3
 cd $W
-( cmake -G Ninja -S . -B _b -DBUILD_TESTS=ON -DBUILD_DOC=OFF && cmake --build _b -j6 ) > $L 2>&1 || { echo "$ID BUILD-FAILED(pristine)"; exit 3; }
+( cmake -G Ninja -S . -B _b -DBUILD_TESTS=ON -DBUILD_DOC=OFF && cmake --build _b -j3 ) > $L 2>&1 || { echo "$ID BUILD-FAILED(pristine)"; exit 3; }
 LIBDIR=$(dirname $(find _b -name 'libcdns.so*' | head -1))
 mkdir -p tmp
 g++ -std=gnu++14 -msse4.2 $XF -Isrc -I_b/src -I_b $A/out/demo$I.cpp -L$LIBDIR -lcdns -lz -llzma -lpthread -Wl,-rpath,$PWD/$LIBDIR -o _b/demo >> $L 2>&1 || { echo "$ID DEMO-BUILD-FAILED"; exit 3; }
 ( cd $W; timeout 300 ./_b/demo ) >> $L 2>&1; d0=$?
 git apply $A/out/patch$I.diff >> $L 2>&1 || { echo "$ID PATCH-FAILED"; exit 3; }
-cmake --build _b -j6 >> $L 2>&1 || { echo "$ID BUILD-FAILED(patched)"; exit 3; }
+cmake --build _b -j3 >> $L 2>&1 || { echo "$ID BUILD-FAILED(patched)"; exit 3; }
 T=$(find _b -name tests -type f -perm -u+x | head -1)
 ( cd $(dirname $T) && timeout 600 ./tests ) > $L.tests 2>&1; t=$?
 np=$(grep -c '^\[       OK \]' $L.tests); nf=$(grep -c '^\[  FAILED  \]' $L.tests)
